@@ -70,8 +70,14 @@ def history(rng, maxlen=40, malformed=False):
     D = rng.choice([1, 2, 3])
     lines = ["D %d" % D]
     nparams = rng.choice([1, 2, 2, 3])
-    for _ in range(nparams):
+    pdev = []
+    for q in range(nparams):
         lines.append("param " + vec(rng, D))
+        pdev.append(0)
+        if rng.random() < 0.3:
+            # re-initialised with an Initializer before first use, half of the time onto another device object
+            pdev[q] = rng.choice([0, 1])
+            lines.append("pinit %d %d %d" % (q, pdev[q], rng.randint(-3, 3)))
     ngraphs = rng.choice([1, 1, 1, 2])
     for _ in range(ngraphs):
         lines.append("graph")
@@ -146,9 +152,12 @@ def history(rng, maxlen=40, malformed=False):
             lines.append("padd %d %s" % (rng.randrange(nparams), vec(rng, D, -2, 2)))
         elif r < 0.89:
             lines.append("pgrad %d %s" % (rng.randrange(nparams), vec(rng, D, -5, 5)))
-        elif r < 0.92:
+        elif r < 0.915:
             p = rng.randrange(nparams)
             lines.append("reset %d" % p); lines.append("grad %d" % p)
+        elif r < 0.92:
+            p = rng.randrange(nparams)       # re-initialised in the middle of training, on the device it lives on
+            lines.append("pinit %d %d %d" % (p, pdev[p], rng.randint(-3, 3))); lines.append("grad %d" % p)
         elif r < 0.95:
             lines.append("failin %d" % rng.choice([0, 0, 1, 2, 3]))
         elif r < 0.97:
@@ -272,8 +281,10 @@ def oracle(lines, outs):
             block = {"n": n, "before": dict(cur), "ok": o.startswith("ok"), "incs": {},
                      "prev_incs": dict(block["incs"]) if same else {}}
             cur = {}
-        elif w[0] in ("pgrad", "reset", "padd", "failin"):
+        elif w[0] in ("pgrad", "reset", "padd", "failin", "pinit"):
             block = None
+            if w[0] == "pinit":
+                cur.pop(int(w[1]), None)
             if w[0] == "pgrad" and o.startswith("ok"):
                 cur[int(w[1])] = [int(x) for x in w[2].split(",")]
             elif w[0] == "reset":
